@@ -17,6 +17,8 @@ class Accumulate(Transform[Gradients, EmptyTensorDict]):
 
         for key in gradients.keys():
             _check_expects_grad(key)
+
+        for key in gradients.keys():
             if hasattr(key, "grad") and key.grad is not None:
                 key.grad += gradients[key]
             else:
